@@ -306,6 +306,10 @@ def op_body(s, op, src=None):
         var = ""
         if not sh[2]:
             var = " (void)v.at(" + ", ".join("0" for _ in range(sh[1])) + ");"
+            # the same overload with class-type arguments that convert implicitly to the coordinate scalar, and with built-in
+            # arguments of mixed types
+            var += " (void)v.at(" + ", ".join("std::integral_constant<int, 0>{}" for _ in range(sh[1])) + ");"
+            var += " (void)v.at(" + ", ".join(("0", "0u", "0l", "short(0)")[k % 4] for k in range(sh[1])) + ");"
         return "", (f"F f({P}); typename F::view_t v(f); typename F::coordinate_t c{{}}; "
                     f"typename F::output_t o = v.at(c); (void)o;{var}")
     if op == "copy":
